@@ -70,12 +70,16 @@ def aggregate(results):
 _replay_cache = {}
 
 
+_unit_owner = {}  # unit -> property whose harness knows how to replay it (dependencies)
+
+
 def run_replay(pid, rp, repo, seed):
     """native replay, once per verification unit and run (the drivers search per unit, not per clause)"""
     try:
         unit = json.load(open(rp)).get("unit")
     except Exception:
         unit = None
+    pid = _unit_owner.get(unit, pid)
     if unit is not None and unit in _replay_cache:
         h = dict(_replay_cache[unit])
         h["cached_from_unit"] = unit
@@ -135,6 +139,16 @@ def main():
     reports = []
     for mp in mods:
         reports.append(verify_module(mp, repo, timeout_ms=timeout_ms, verbose=a.verbose))
+    # contracts this property's proofs ASSUME and that are proved under another property: re-proved here, so that a change
+    # breaking them is reported for this property too
+    for dep_pid, units in meta.get("depends", []):
+        rep = verify_module(os.path.join(HERE, "contracts", f"{dep_pid}.py"), repo, timeout_ms=timeout_ms, only=set(units), verbose=a.verbose)
+        rep["dependency_of"] = dep_pid
+        reports.append(rep)
+    for rep in reports:
+        if rep.get("dependency_of"):
+            for u in rep["units"]:
+                _unit_owner[u["unit"]] = rep["dependency_of"]
     results = [r for rep in reports for r in rep["results"]]
     undec_units = [u for rep in reports for u in rep["undecided"]]
     agg = aggregate(results)
